@@ -30,6 +30,20 @@ theorem fillBytes_zero_len (b : List Nat) (off v : Nat) : fillBytes b off 0 v = 
   have : ¬ (off ≤ j ∧ j < off) := by omega
   simp [fillBytes, List.getD_eq_getElem?_getD, this, h2]
 
+/-- one-pass implementation of `fillBytes` for compiled code (the definition looks every byte up by
+index, which is quadratic in the region size); the compiler uses it through `@[csimp]` -/
+def fillBytesFast (bytes : List Nat) (off n v : Nat) : List Nat :=
+  bytes.zipIdx.map fun (x, j) => if off ≤ j ∧ j < off + n then v else x
+
+@[csimp] theorem fillBytes_eq_fast : @fillBytes = @fillBytesFast := by
+  funext bytes off n v
+  apply List.ext_getElem
+  · simp [fillBytes, fillBytesFast]
+  · intro j h1 h2
+    simp [fillBytes, fillBytesFast, List.getD_eq_getElem?_getD]
+    have : j < bytes.length := by simpa [fillBytes] using h1
+    simp [this]
+
 /-- two blocks `(off, len)` share no byte -/
 def disjoint (a b : Nat × Nat) : Prop := a.1 + a.2 ≤ b.1 ∨ b.1 + b.2 ≤ a.1
 
